@@ -662,6 +662,19 @@ def gen_driver_wiring(src, fns, path):
 
 GENERATORS = {'Coeffs': gen_coeffs}
 
+def _discover():
+    """tools/gen_<Name>.py modules: each defines NAME (= Lean file Generated/<NAME>.lean) and generate() -> str"""
+    import importlib.util, glob
+    here = os.path.dirname(os.path.abspath(__file__))
+    for path in sorted(glob.glob(os.path.join(here, 'gen_*.py'))):
+        modname = os.path.basename(path)[:-3]
+        spec = importlib.util.spec_from_file_location(modname, path)
+        mod = importlib.util.module_from_spec(spec)
+        sys.modules.setdefault('translate', sys.modules[__name__])
+        spec.loader.exec_module(mod)
+        GENERATORS[mod.NAME] = mod.generate
+_discover()
+
 def write_all(which=None, gen_dir=GEN_DIR):
     """returns dict name -> None (ok) or error string.  A failing generator leaves a stub file
     that defines `translateFailed_<name> : String` so that dependants fail to build loudly."""
